@@ -103,6 +103,12 @@ impl BBSplusPoKSignature {
     ///
     /// * `Result<Self, Error>` - A result containing the deserialized `BBSplusPoKSignature` or an error.
     pub fn from_bytes(bytes: &[u8]) -> Result<Self, Error> {
+        // 3 points, 3 scalars, the challenge, and a whole number of undisclosed-message scalars
+        const FLOOR: usize = 3 * 48 + 4 * 32;
+        if bytes.len() < FLOOR || (bytes.len() - FLOOR) % 32 != 0 {
+            return Err(Error::InvalidProofOfKnowledgeSignature);
+        }
+
         let Abar = parse_g1_projective(&bytes[0..48])
             .map_err(|_| Error::InvalidProofOfKnowledgeSignature)?;
         let Bbar = parse_g1_projective(&bytes[48..96])
@@ -974,6 +980,11 @@ impl BBSplusZKPoK {
     /// # Output
     /// * A Result containing the `BBSplusZKPoK` or an Error.
     pub fn from_bytes(bytes: &[u8]) -> Result<Self, Error> {
+        // s_cap, the challenge, and a whole number of committed-message scalars
+        if bytes.len() < 2 * 32 || bytes.len() % 32 != 0 {
+            return Err(Error::InvalidProofOfKnowledgeSignature);
+        }
+
         let s_cap = Scalar::from_bytes_be(
             &<[u8; 32]>::try_from(&bytes[0..32])
                 .map_err(|_| Error::InvalidProofOfKnowledgeSignature)?,
